@@ -8,7 +8,13 @@ for d in sorted(os.listdir(root)):
     prop = d.split('-')[0]
     notes = open(os.path.join(p, 'notes.md')).read() if os.path.exists(os.path.join(p, 'notes.md')) else ''
     log = open(os.path.join(p, 'verify.log')).read().splitlines() if os.path.exists(os.path.join(p, 'verify.log')) else []
-    detected = [l.strip() for l in log if '[violation]' in l or '[undecided]' in l]
+    dl = os.path.join(p, 'detect.log')
+    if os.path.exists(dl):
+        dlog = open(dl).read().splitlines()
+        detected = [l.strip() for l in dlog if '[violation]' in l or '[undecided]' in l]
+        log = [l for l in log if not l.startswith('check ') and '[violation]' not in l and 'VIOLATION' not in l] + dlog[:1]
+    else:
+        detected = [l.strip() for l in log if '[violation]' in l or '[undecided]' in l]
     meta = {
         'property': prop,
         'seed': d,
